@@ -81,6 +81,63 @@ func (v *PacketDslFormattor) getHiddenRightAtSameLine(token antlr.Token) string 
 	return strings.TrimRight(sb.String(), "\n")
 }
 
+// getCommentsInRange returns the line comments with a token index in (from, to) that no print
+// routine has emitted yet, each followed by a line break.
+func (v *PacketDslFormattor) getCommentsInRange(from, to int) string {
+	var sb strings.Builder
+	for i := from + 1; i < to && i < v.tokenStream.Size(); i++ {
+		t := v.tokenStream.Get(i)
+		if t.GetTokenType() != gen.PacketDslParserLINE_COMMENT {
+			continue
+		}
+		if _, ok := v.lineComments[t]; ok {
+			continue
+		}
+		v.lineComments[t] = struct{}{}
+		sb.WriteString(t.GetText())
+		sb.WriteString("\n")
+	}
+	return sb.String()
+}
+
+// getCommentsInside returns the not yet emitted comments written inside a declaration; they are
+// printed on their own lines above it.
+func (v *PacketDslFormattor) getCommentsInside(ctx antlr.ParserRuleContext) string {
+	if ctx.GetStart() == nil || ctx.GetStop() == nil {
+		return ""
+	}
+	return v.getCommentsInRange(ctx.GetStart().GetTokenIndex(), ctx.GetStop().GetTokenIndex())
+}
+
+// getCommentsBefore returns the not yet emitted comments between the start of ctx and its first
+// (last = false) or last (last = true) terminal with the given text, e.g. the braces of a block.
+func (v *PacketDslFormattor) getCommentsBefore(ctx antlr.ParserRuleContext, text string, last bool) string {
+	if ctx.GetStart() == nil {
+		return ""
+	}
+	var found antlr.Token
+	for _, child := range ctx.GetChildren() {
+		if node, ok := child.(antlr.TerminalNode); ok && node.GetText() == text {
+			found = node.GetSymbol()
+			if !last {
+				break
+			}
+		}
+	}
+	if found == nil {
+		return ""
+	}
+	return v.getCommentsInRange(ctx.GetStart().GetTokenIndex(), found.GetTokenIndex())
+}
+
+// indentComments indents comments that go on their own lines inside a block.
+func indentComments(comments string) string {
+	if comments == "" {
+		return ""
+	}
+	return AddIndent4ln(strings.TrimRight(comments, "\n"))
+}
+
 // VisitPacket overrides the default implementation for protocol definitions.
 func (v *PacketDslFormattor) VisitPacket(ctx *gen.PacketContext) interface{} {
 	var formattedDsl strings.Builder
@@ -111,6 +168,11 @@ func (v *PacketDslFormattor) VisitPacket(ctx *gen.PacketContext) interface{} {
 	if stop := ctx.GetStop(); stop != nil {
 		formattedDsl.WriteString(v.getHiddenRightAtSameLine(stop))
 	}
+	// comments after the last definition, and any comment no print routine has picked up
+	if rest := v.getCommentsInRange(-1, v.tokenStream.Size()); rest != "" {
+		formattedDsl.WriteString("\n")
+		formattedDsl.WriteString(rest)
+	}
 	return formattedDsl.String()
 }
 
@@ -118,6 +180,7 @@ func (v *PacketDslFormattor) VisitPacket(ctx *gen.PacketContext) interface{} {
 func (v *PacketDslFormattor) VisitPacketDefinition(ctx *gen.PacketDefinitionContext) interface{} {
 	var formattedDsl strings.Builder
 	formattedDsl.WriteString(v.getHiddenLeft(ctx.GetStart()))
+	formattedDsl.WriteString(v.getCommentsBefore(ctx, "{", false))
 	if ctx.ROOT() != nil {
 		formattedDsl.WriteString("root ")
 	}
@@ -135,6 +198,7 @@ func (v *PacketDslFormattor) VisitPacketDefinition(ctx *gen.PacketDefinitionCont
 		}
 	}
 
+	formattedDsl.WriteString(indentComments(v.getCommentsInside(ctx)))
 	formattedDsl.WriteString("}")
 	formattedDsl.WriteString(v.getHiddenRightAtSameLine(ctx.GetStop()))
 	return formattedDsl.String()
@@ -145,6 +209,8 @@ func (v *PacketDslFormattor) VisitFieldDefinitionWithAttribute(ctx *gen.FieldDef
 	var formattedDsl strings.Builder
 	if len(ctx.AllFieldAttribute()) > 0 {
 		for _, fieldAttr := range ctx.AllFieldAttribute() {
+			formattedDsl.WriteString(v.getHiddenLeft(fieldAttr.GetStart()))
+			formattedDsl.WriteString(v.getCommentsInside(fieldAttr))
 			switch {
 			case fieldAttr.CalculatedFromAttribute() != nil:
 				formattedDsl.WriteString(v.VisitCalculatedFromAttribute(fieldAttr.CalculatedFromAttribute().(*gen.CalculatedFromAttributeContext)).(string))
@@ -188,6 +254,7 @@ func (v *PacketDslFormattor) VisitPaddingAttribute(ctx *gen.PaddingAttributeCont
 func (v *PacketDslFormattor) VisitOptionDefinition(ctx *gen.OptionDefinitionContext) interface{} {
 	var formattedDsl strings.Builder
 	formattedDsl.WriteString(v.getHiddenLeft(ctx.GetStart()))
+	formattedDsl.WriteString(v.getCommentsBefore(ctx, "{", false))
 	// format options
 	formattedDsl.WriteString("options {\n")
 	for _, decl := range ctx.AllOptionDeclaration() {
@@ -195,6 +262,7 @@ func (v *PacketDslFormattor) VisitOptionDefinition(ctx *gen.OptionDefinitionCont
 			formattedDsl.WriteString(AddIndent4ln(v.VisitOptionDeclaration(d).(string)))
 		}
 	}
+	formattedDsl.WriteString(indentComments(v.getCommentsInside(ctx)))
 	formattedDsl.WriteString("}")
 	formattedDsl.WriteString(v.getHiddenRightAtSameLine(ctx.GetStop()))
 	return formattedDsl.String()
@@ -204,6 +272,7 @@ func (v *PacketDslFormattor) VisitOptionDefinition(ctx *gen.OptionDefinitionCont
 func (v *PacketDslFormattor) VisitOptionDeclaration(ctx *gen.OptionDeclarationContext) interface{} {
 	var formattedDsl strings.Builder
 	formattedDsl.WriteString(v.getHiddenLeft(ctx.GetStart()))
+	formattedDsl.WriteString(v.getCommentsInside(ctx))
 	optionName := ctx.IDENTIFIER().GetText()
 	optionValue := ctx.Value().GetText()
 	formattedDsl.WriteString(fmt.Sprintf("%s = %s", optionName, optionValue))
@@ -218,6 +287,14 @@ func (v *PacketDslFormattor) VisitOptionDeclaration(ctx *gen.OptionDeclarationCo
 func (v *PacketDslFormattor) VisitFieldDefinition(ctx interface{}) interface{} {
 	var b strings.Builder
 	b.WriteString(v.getHiddenLeft(ctx.(antlr.ParserRuleContext).GetStart()))
+	switch c := ctx.(type) {
+	case *gen.InerObjectFieldContext:
+		b.WriteString(v.getCommentsBefore(c.InerObjectDeclaration(), "{", false))
+	case *gen.MatchFieldContext:
+		b.WriteString(v.getCommentsBefore(c.MatchFieldDeclaration(), "{", false))
+	case antlr.ParserRuleContext:
+		b.WriteString(v.getCommentsInside(c))
+	}
 	switch c := ctx.(type) {
 	case *gen.ObjectFieldContext:
 		field := ""
@@ -275,6 +352,7 @@ func (v *PacketDslFormattor) VisitInerObjectField(ctx *gen.InerObjectFieldContex
 		formattedDsl.WriteString(AddIndent4ln(result))
 	}
 
+	formattedDsl.WriteString(indentComments(v.getCommentsBefore(inerObjectDeclaration, "}", true)))
 	formattedDsl.WriteString("},")
 	return formattedDsl.String()
 }
@@ -282,23 +360,32 @@ func (v *PacketDslFormattor) VisitInerObjectField(ctx *gen.InerObjectFieldContex
 // VisitMetaDataDefinition overrides the default implementation for metadata definitions.
 func (v *PacketDslFormattor) VisitMetaDataDefinition(ctx *gen.MetaDataDefinitionContext) interface{} {
 	var formattedDsl strings.Builder
+	formattedDsl.WriteString(v.getHiddenLeft(ctx.GetStart()))
+	formattedDsl.WriteString(v.getCommentsBefore(ctx, "{", false))
 	metaName := ctx.IDENTIFIER().GetText()
 	formattedDsl.WriteString(fmt.Sprintf("MetaData %s {\n", metaName))
 
 	for _, decl := range ctx.GetChildren() {
+		c, ok := decl.(antlr.ParserRuleContext)
+		if !ok {
+			continue
+		}
+		result := v.getHiddenLeft(c.GetStart()) + v.getCommentsInside(c)
 		switch c := decl.(type) {
 		case *gen.RefMetaDataDeclarationContext:
-			result := v.VisitRefMetaDataDeclaration(c).(string)
-			formattedDsl.WriteString(AddIndent4ln(result))
+			result += v.VisitRefMetaDataDeclaration(c).(string)
 		case *gen.MetaDataDeclarationContext:
-			result := v.VisitMetaDataDeclaration(c).(string)
-			formattedDsl.WriteString(AddIndent4ln(result))
+			result += v.VisitMetaDataDeclaration(c).(string)
 		default:
 			continue
 		}
+		result += v.getHiddenRightAtSameLine(c.GetStop())
+		formattedDsl.WriteString(AddIndent4ln(result))
 	}
 
+	formattedDsl.WriteString(indentComments(v.getCommentsInside(ctx)))
 	formattedDsl.WriteString("}")
+	formattedDsl.WriteString(v.getHiddenRightAtSameLine(ctx.GetStop()))
 	return formattedDsl.String()
 }
 
@@ -374,7 +461,7 @@ func (v *PacketDslFormattor) VisitMatchFieldDeclaration(ctx *gen.MatchFieldDecla
 	var formattedDsl strings.Builder
 	formattedDsl.WriteString(fmt.Sprintf("match %s as %s {\n", matchKey, matchName))
 	for _, pairCtx := range ctx.AllMatchPair() {
-		lineComment := strings.TrimRight(v.getHiddenLeft(pairCtx.GetStart()), "\n")
+		lineComment := strings.TrimRight(v.getHiddenLeft(pairCtx.GetStart())+v.getCommentsInside(pairCtx), "\n")
 		if lineComment != "" {
 			formattedDsl.WriteString(AddIndent4ln(lineComment))
 		}
@@ -406,6 +493,7 @@ func (v *PacketDslFormattor) VisitMatchFieldDeclaration(ctx *gen.MatchFieldDecla
 			formattedDsl.WriteString(AddIndent4ln(lineComment))
 		}
 	}
+	formattedDsl.WriteString(indentComments(v.getCommentsBefore(ctx, "}", true)))
 	formattedDsl.WriteString("}")
 	return formattedDsl.String()
 }
